@@ -369,6 +369,6 @@ def _get_uint_dtype(max_value):
 
 
 def _get_bytes_for_type(this_dtype):
-    if np.issubdtype(this_dtype, np.integer):
-        return np.iinfo(this_dtype).bits//8
-    return np.finfo(this_dtype).bits//8
+    # (itemsize is defined for every dtype; np.finfo is not
+    # defined for, e.g., bool)
+    return np.dtype(this_dtype).itemsize
